@@ -25,6 +25,11 @@ Theorem C15_sorted_dependency_list_independent_of_map_order :
 Proof. exact sorted_strings_order_independent. Qed.
 Print Assumptions C15_sorted_dependency_list_independent_of_map_order.
 
+(* 4. The sorting calls those sites rely on are present in the source, comparator included. *)
+Theorem C15_sorting_calls_present : forallb (fun s => existsb (pair_eqb s) sort_calls) required_sorts = true.
+Proof. exact Sorts_present. Qed.
+Print Assumptions C15_sorting_calls_present.
+
 (* ---- non-vacuity ---- *)
 Example ex_perm :
   let a := mkImp [111; 115]%N [111; 115]%N false true [111; 115]%N false in
